@@ -150,6 +150,10 @@ where
         }
     }
     fn on_exit(&self, id: &Id, ctx: Context<'_, C>) {
+        if ctx.span(id).is_none() {
+            self.log.err(Tag::C05, format!("EXIT-AFTER-CLOSE layer {}: on_exit({:#x}) arrives after the span was closed and removed (ctx.span finds nothing)", self.layer, id.into_u64()));
+            return;
+        }
         if let Some(serial) = self.serial_of("on_exit", ctx.span(id), id) {
             self.log.entries.lock().unwrap().push(LEv::Exit { layer: self.layer, serial });
         }
@@ -289,6 +293,8 @@ struct H {
 thread_local! {
     static GUARDS: RefCell<Vec<(EnteredSpan, Option<u64>)>> = const { RefCell::new(Vec::new()) };
     static DEFAULTS: RefCell<Vec<(DefaultGuard, Option<usize>)>> = const { RefCell::new(Vec::new()) };
+    /// enters made through the collector API directly (no handle is owned by the entry)
+    static RAW: RefCell<Vec<(Id, Dispatch, u64)>> = const { RefCell::new(Vec::new()) };
     static TID: std::cell::Cell<usize> = const { std::cell::Cell::new(0) };
 }
 fn cur_default() -> Option<usize> {
@@ -314,6 +320,8 @@ pub struct World {
     pub stats: BTreeMap<String, u64>,
     pub sigs: Vec<String>,
     pub tainted: bool,
+    /// known finding F28 matched in this history (exit that releases the last reference)
+    pub f28: u64,
     rng: Rng,
     fresh: Arc<Fresh>,
     next_serial: u64,
@@ -512,7 +520,8 @@ impl World {
         let dflt = cur_default();
         let deep = depth >= 3;
         let c6 = self.w.c06;
-        let w: [u32; 14] = [
+        let nraw = RAW.with(|r| r.borrow().len());
+        let w: [u32; 16] = [
             6,                                             // 0 new contextual (macro)
             if self.metas.is_empty() { 0 } else { 4 },     // 1 new root / explicit parent
             if has { 4 } else { 0 },                       // 2 clone
@@ -527,6 +536,8 @@ impl World {
             if ntr > 0 { 3 } else { 0 },                   // 11 check / drop trace
             if self.w.foreign && !deep { 2 } else { 0 },   // 12 with other default { body }
             if has { 1 } else { 0 },                       // 13 re-enter same span (duplicate) scoped
+            if has && nraw < 4 { 3 } else { 0 },           // 14 enter through the collector API (owns no handle)
+            if nraw > 0 { 4 } else { 0 },                  // 15 exit through the collector API
         ];
         let op = self.rng.weighted(&w);
         match op {
@@ -820,6 +831,57 @@ impl World {
                 self.trace.push(format!("[w{t}] }} // end default"));
                 self.check(&[], None, None);
             }
+            14 => {
+                let cands: Vec<usize> = live.iter().copied().filter(|&i| self.handles[i].as_ref().unwrap().serial.is_some()).collect();
+                if cands.is_empty() { return; }
+                let h = *self.rng.pick(&cands);
+                let serial = self.handles[h].as_ref().unwrap().serial.unwrap();
+                self.trace.push(format!("[w{t}] raw{nraw} = dispatch.enter(id of h{h}) [serial {serial}] (no handle owned)"));
+                let got = self.handles[h].as_ref().unwrap().span.with_collector(|(id, d)| {
+                    d.enter(id);
+                    (id.clone(), d.clone())
+                });
+                if let Some((id, d)) = got {
+                    let st = self.model.spans[&serial].stack;
+                    self.model.enter(st, t, serial);
+                    self.stat("enters");
+                    self.stat("raw_enters");
+                    RAW.with(|r| r.borrow_mut().push((id, d, serial)));
+                }
+                self.sig("raw_enter", Some(serial), depth);
+                self.check(&[], None, None);
+            }
+            15 => {
+                let k = self.rng.usize(nraw);
+                let (id, d, serial) = RAW.with(|r| r.borrow_mut().remove(k));
+                let m = self.model.spans[&serial].clone();
+                let last = m.handles == 0 && m.entered == 1 && m.children == 0
+                    && self.model.tstack.get(&(m.stack, t)).map(|v| v.iter().filter(|x| **x == serial).count()).unwrap_or(0) == 1;
+                self.trace.push(format!("[w{t}] dispatch.exit(raw[{k}]) [serial {serial}{}], default {dflt:?}", if last { ", this exit releases the last reference" } else { "" }));
+                self.sig(if last { "raw_exit_last_ref" } else { "raw_exit" }, Some(serial), depth);
+                if dflt != Some(m.stack) {
+                    self.tainted = true;
+                }
+                if last {
+                    self.stat("exits_that_release_the_last_reference");
+                    if m.parent.is_some() { self.stat("exits_that_release_the_last_reference_of_a_child"); }
+                }
+                d.exit(&id);
+                let closes = self.model.exit(m.stack, t, serial);
+                let before = self.errors.len();
+                self.check(&closes, None, None);
+                if last {
+                    // F28: Layered::exit runs the registry's exit (which closes the span when this
+                    // exit releases the last reference) BEFORE the layers' on_exit
+                    let n0 = self.errors.len();
+                    let mut kept = vec![];
+                    for (i, e) in std::mem::take(&mut self.errors).into_iter().enumerate() {
+                        if i >= before && e.1.contains("EXIT-AFTER-CLOSE") { self.f28 += 1; } else { kept.push(e); }
+                    }
+                    self.errors = kept;
+                    let _ = n0;
+                }
+            }
             _ => unreachable!(),
         }
         // probe: the collector's own notion of the current span on this thread
@@ -839,6 +901,28 @@ impl World {
 
     pub fn unwind_thread(&mut self) {
         let t = TID.with(|t| t.get());
+        loop {
+            let r = RAW.with(|r| r.borrow_mut().pop());
+            let Some((id, d, serial)) = r else { break };
+            self.trace.push(format!("[w{t}] dispatch.exit(raw) [serial {serial}] (end of history)"));
+            let st = self.model.spans[&serial].stack;
+            if cur_default() != Some(st) { self.tainted = true; }
+            let m = self.model.spans[&serial].clone();
+            let last = m.handles == 0 && m.entered == 1 && m.children == 0
+                && self.model.tstack.get(&(st, t)).map(|v| v.iter().filter(|x| **x == serial).count()).unwrap_or(0) == 1;
+            d.exit(&id);
+            let closes = self.model.exit(st, t, serial);
+            let before = self.errors.len();
+            self.check(&closes, None, None);
+            if last {
+                let mut kept = vec![];
+                for (i, e) in std::mem::take(&mut self.errors).into_iter().enumerate() {
+                    if i >= before && e.1.contains("EXIT-AFTER-CLOSE") { self.f28 += 1; } else { kept.push(e); }
+                }
+                self.errors = kept;
+            }
+            if !self.errors.is_empty() { return; }
+        }
         loop {
             let g = GUARDS.with(|gs| gs.borrow_mut().pop());
             let Some((g, serial)) = g else { break };
@@ -895,6 +979,7 @@ pub struct Outcome {
     pub stats: BTreeMap<String, u64>,
     pub sigs: Vec<String>,
     pub tainted: bool,
+    pub f28: u64,
     pub ops: u64,
 }
 
@@ -915,6 +1000,7 @@ pub fn run_history(seed: u64, idx: u64, fresh: Arc<Fresh>, w: Weights, max_ops: 
         stats: BTreeMap::new(),
         sigs: vec![],
         tainted: false,
+        f28: 0,
         rng: Rng::derive(seed, 0xC05B, idx),
         fresh,
         next_serial: 1,
@@ -979,6 +1065,7 @@ pub fn run_history(seed: u64, idx: u64, fresh: Arc<Fresh>, w: Weights, max_ops: 
         let _ = workers.run(t, move || {
             // leak guards left behind by an aborted history rather than running their drops
             GUARDS.with(|gs| { for g in gs.borrow_mut().drain(..) { std::mem::forget(g); } });
+            RAW.with(|r| r.borrow_mut().clear());
             DEFAULTS.with(|ds| { while let Some(g) = ds.borrow_mut().pop() { drop(g); } });
         });
     }
@@ -993,6 +1080,7 @@ pub fn run_history(seed: u64, idx: u64, fresh: Arc<Fresh>, w: Weights, max_ops: 
         stats: std::mem::take(&mut w.stats),
         sigs: std::mem::take(&mut w.sigs),
         tainted: w.tainted,
+        f28: w.f28,
         ops: w.next_serial - 1,
     };
     // an aborted history may leave handles whose drop would panic again: leak them
